@@ -137,6 +137,9 @@ def generic_replay(w):
     if k == "program":
         from .oracle import replay_program
         return replay_program(w)
+    if k == "program-host":
+        from . import hosts
+        return hosts.replay(w)
     if k == "reject":
         out = []
         for cfg in ([tuple(w["cfg"])] if w.get("cfg") else env.ALL_CFGS):
